@@ -55,6 +55,23 @@ fn main() {
     if !neon_port::AVAILABLE {
         ctx.unavailable.push("neon-port".into());
     }
+    // minimized past failures of this property run first
+    if what.starts_with('C') {
+        if let Ok(rd) = std::fs::read_dir("/verif/corpus") {
+            let mut files: Vec<_> = rd.filter_map(|e| e.ok()).map(|e| e.path()).filter(|p| p.file_name().and_then(|n| n.to_str()).map(|n| n.starts_with(&format!("{}-", what)) && n.ends_with(".json")).unwrap_or(false)).collect();
+            files.sort();
+            let mut corpus = vec![];
+            for f in files {
+                if let Some(j) = std::fs::read_to_string(&f).ok().and_then(|t| J::parse(&t)) {
+                    if let Some(mut c) = Case::from_json(&j) { c.name = format!("corpus:{}", c.name); corpus.push(c); }
+                }
+            }
+            if !corpus.is_empty() {
+                ctx.run_cases(&corpus);
+                ctx.bump("corpus_cases", corpus.len());
+            }
+        }
+    }
     match what.as_str() {
         "replay" => {
             let path = arg(&args, "--case").expect("--case");
